@@ -9,20 +9,41 @@
    partial acceptance at any position are included), Block (BlockingIOError), Fail (OSError), FailV (ValueError);
    packets and schedules of unbounded length.  [wire_of] = concatenation of the bytes accepted by the raw socket,
    [unsent] = concatenation of the not yet accepted suffixes of the queued packets in queue order,
-   [enq_bytes ops] = the packets in the order they were queued, packet i has id i. *)
+   [enq_bytes ops] = the packets in the order they were queued, packet i has id i.
+
+   Hypothesis of every theorem: [conn_first ops = true] - CONNECT (which _packet_queue puts at the HEAD of the
+   queue since /repo commit 0ed8c5c) is the first packet queued on the connection.  Without it the full statement
+   is false on the current code: see C06_stream_full / C06_stream_refuted (finding F-C06b) below. *)
 From PahoV Require Import Base.Prelude Link.Writer Link.WriterProofs Link.WsWriter Link.WsWriterProofs.
 
 (* ------------------------------------------------------------------ raw socket *)
 
 (* nothing lost, duplicated or reordered: accepted bytes ++ unsent remainder = the queued packets *)
-Theorem C06_stream : forall c ops,
+Definition C06_stream_full : Prop := forall c ops,
+  wire_of (r_trace (raw_run c ops)) ++ unsent (r_st (raw_run c ops)) = concat (enq_bytes ops).
+
+(* F-C06b: a packet queued and partly written before CONNECT is queued (publish() from on_socket_open in
+   direct-write mode, or from another thread) gets CONNECT inserted in front of its unsent remainder: the bytes
+   on the wire are a piece of the PUBLISH, then CONNECT, then the rest of the PUBLISH - in neither order the
+   two packets - and the PUBLISH is reported published. *)
+Theorem C06_stream_refuted :
+  exists c ops a b,
+    enq_bytes ops = [a; b]
+    /\ unsent (r_st (raw_run c ops)) = []
+    /\ wire_of (r_trace (raw_run c ops)) <> a ++ b
+    /\ wire_of (r_trace (raw_run c ops)) <> b ++ a
+    /\ In (SetPublished 0) (r_trace (raw_run c ops)).
+Proof. exact raw_stream_refuted. Qed.
+Print Assumptions C06_stream_refuted.
+
+Theorem C06_stream_partial : forall c ops, conn_first ops = true ->
   wire_of (r_trace (raw_run c ops)) ++ unsent (r_st (raw_run c ops)) = concat (enq_bytes ops).
 Proof. exact raw_stream. Qed.
-Print Assumptions C06_stream.
+Print Assumptions C06_stream_partial.
 
 (* on_publish / _set_as_published for packet i happen only for a QoS 0 PUBLISH and only at a point where the
    bytes on the wire are exactly the packets 0..i (so its last byte was accepted, and nothing beyond it) *)
-Theorem C06_qos0_published : forall c ops tr1 e tr2 i,
+Theorem C06_qos0_published : forall c ops tr1 e tr2 i, conn_first ops = true ->
   r_trace (raw_run c ops) = tr1 ++ e :: tr2 -> e = CbPublish i \/ e = SetPublished i ->
   0 <= i
   /\ (exists p, nth_error (hist_of ops) (Z.to_nat i) = Some p /\ p_kind p = KPub0 /\ p_id p = i)
@@ -33,7 +54,7 @@ Print Assumptions C06_qos0_published.
 (* exactly once: with [done] = the packets that are completely on the wire, the _set_as_published calls are
    exactly the QoS 0 packets of [done], in order, each once (except a packet whose on_publish raised with
    suppress_exceptions off: the exception propagates and _set_as_published is skipped); same for on_publish *)
-Theorem C06_qos0_once : forall c ops,
+Theorem C06_qos0_once : forall c ops, conn_first ops = true ->
   let r := raw_run c ops in
   NoDup (setpub_ids (r_trace r)) /\ NoDup (cbpub_ids (r_trace r))
   /\ exists done,
@@ -45,7 +66,7 @@ Proof. exact raw_qos0_once. Qed.
 Print Assumptions C06_qos0_once.
 
 (* while bytes remain unsent want_write() is true, and if the socket is open write registration was requested *)
-Theorem C06_want_write : forall c ops,
+Theorem C06_want_write : forall c ops, conn_first ops = true ->
   let st := r_st (raw_run c ops) in
   unsent st <> [] -> want_write st = true /\ (sock st = true -> regw st = true).
 Proof. exact raw_want_write. Qed.
@@ -53,7 +74,7 @@ Print Assumptions C06_want_write.
 
 (* the `while True` loop of _packet_write terminates: the fuel S (sum over the queue of 1 + unsent bytes) is
    never exhausted in any reachable state, whatever the schedule *)
-Theorem C06_terminates : forall c ops, ~ In RcOutOfFuel (r_rcs (raw_run c ops)).
+Theorem C06_terminates : forall c ops, conn_first ops = true -> ~ In RcOutOfFuel (r_rcs (raw_run c ops)).
 Proof. exact raw_terminates. Qed.
 Print Assumptions C06_terminates.
 
@@ -63,6 +84,7 @@ Print Assumptions C06_terminates.
    forbids - unreachable, an MQTT packet has at most 2^28+4 bytes). *)
 
 Theorem C06_ws_stream : forall keyf, (forall n, length (keyf n) = 4%nat) -> forall c ops,
+  conn_first ops = true ->
   zlen (concat (enq_bytes ops)) < 9223372036854775808 ->
   exists chunks rest,
     deframe (wire_of (r_trace (ws_run keyf c ops))) = Some (chunks, rest)
@@ -73,6 +95,7 @@ Print Assumptions C06_ws_stream.
 (* every complete frame on the raw socket: FIN, no RSV bits, opcode 2, mask bit, 4-byte key, minimal length
    form, 64-bit length below 2^63, payload of the announced length *)
 Theorem C06_ws_frames_wf : forall keyf, (forall n, length (keyf n) = 4%nat) -> forall c ops,
+  conn_first ops = true ->
   zlen (concat (enq_bytes ops)) < 9223372036854775808 ->
   let w := wire_of (r_trace (ws_run keyf c ops)) in
   forallb ws_frame_wf (fst (parse_frames (length w) w)) = true.
@@ -80,6 +103,7 @@ Proof. exact ws_frames_wf. Qed.
 Print Assumptions C06_ws_frames_wf.
 
 Theorem C06_ws_qos0_published : forall keyf, (forall n, length (keyf n) = 4%nat) -> forall c ops tr1 e tr2 i,
+  conn_first ops = true ->
   zlen (concat (enq_bytes ops)) < 9223372036854775808 ->
   r_trace (ws_run keyf c ops) = tr1 ++ e :: tr2 -> e = CbPublish i \/ e = SetPublished i ->
   0 <= i
@@ -90,6 +114,7 @@ Proof. exact ws_qos0_published. Qed.
 Print Assumptions C06_ws_qos0_published.
 
 Theorem C06_ws_qos0_once : forall keyf, (forall n, length (keyf n) = 4%nat) -> forall c ops,
+  conn_first ops = true ->
   zlen (concat (enq_bytes ops)) < 9223372036854775808 ->
   let r := ws_run keyf c ops in
   NoDup (setpub_ids (r_trace r)) /\ NoDup (cbpub_ids (r_trace r))
@@ -102,13 +127,13 @@ Theorem C06_ws_qos0_once : forall keyf, (forall n, length (keyf n) = 4%nat) -> f
 Proof. exact ws_qos0_once. Qed.
 Print Assumptions C06_ws_qos0_once.
 
-Theorem C06_ws_want_write : forall keyf c ops,
+Theorem C06_ws_want_write : forall keyf c ops, conn_first ops = true ->
   let st := r_st (ws_run keyf c ops) in
   unsent st <> [] -> want_write st = true /\ (sock st = true -> regw st = true).
 Proof. exact ws_want_write. Qed.
 Print Assumptions C06_ws_want_write.
 
-Theorem C06_ws_terminates : forall keyf c ops,
+Theorem C06_ws_terminates : forall keyf c ops, conn_first ops = true ->
   ~ In RcOutOfFuel (r_rcs (ws_run keyf c ops)).
 Proof. exact ws_terminates. Qed.
 Print Assumptions C06_ws_terminates.
@@ -121,6 +146,10 @@ Definition ex_ops : list op :=
     OWrite [Accept 2; Block];                         (* 2 bytes, then EAGAIN *)
     OWrite [Accept 0];                                (* send() returns 0 *)
     OWrite [Accept 1; Accept 5] ].                    (* 1 byte, the rest of packet 0, then all of packet 1 *)
+
+Example C06_ex_conn_first : conn_first ex_ops = true
+  /\ conn_first (OEnq false [16; 2; 0; 0] KConn false [Accept 1; Block] :: ex_ops) = true.
+Proof. split; reflexivity. Qed.
 
 Example C06_ex_raw :
   let r := raw_run ex_cfg ex_ops in
